@@ -16,7 +16,7 @@ from ..spec import int_range
 
 LEVEL = "exploration"
 SHARDS = {"quick": 1, "thorough": 16}
-REQUIRED = ("families_whose_size_expression_can_go_negative", "nonbytes_inputs_rejected_with_silent", "errors_judged", "failing_field_confirmed_by_trace", "nested_errors_judged", "flat_errors_judged",
+REQUIRED = ("recursive_failures_judged", "families_whose_size_expression_can_go_negative", "nonbytes_inputs_rejected_with_silent", "errors_judged", "failing_field_confirmed_by_trace", "nested_errors_judged", "flat_errors_judged",
             "pack_errors_judged", "unpack_errors_judged", "run_names_accepted", "nonbytes_inputs_rejected",
             "silent_none_checked", "pack_collisions_judged")
 MIN_NONTRIVIAL = 150
@@ -220,9 +220,71 @@ def f12_probe(run):
     common.drop_scratch(d)
 
 
+RECURSIVE_SRC = render.HEADER + """
+class Node%(V)s(Packet):
+    __bisturi__ = %(O)r
+    n = Int(1)
+    val = Int(1)
+    kids = Ref(lambda **k: Node%(V)s(), default=b'').repeated(n)
+"""
+
+
+def recursive_probe(run):
+    """A self-recursive declaration (a node holds a sequence of nodes): a failure d levels deep reports the failing field (or its
+    run) and then ONE entry per enclosing sequence field - the d entries carry the same field and class name ('kids' of 'Node'),
+    and in the packing phase possibly the same offset: they are still d different enclosing fields."""
+    import bisturi.packet as bp
+    d = common.scratch_dir("bvf_c12r_")
+    try:
+        for tag, opts in (("g", {"generate_for_pack": False, "generate_for_unpack": False}), ("d", {}), ("nv", {"vectorize": False})):
+            src = RECURSIVE_SRC % {"V": "_" + tag, "O": opts}
+            module, path = render.load_source(src, d)
+            Node = getattr(module, "Node_" + tag)
+            for depth in range(0, 6):
+                # packing phase: the deepest node holds a value that does not fit in one byte
+                node = Node(n=0, val=300, kids=[])
+                for _ in range(depth):
+                    node = Node(n=1, val=1, kids=[node])
+                # parsing phase: the same tree cut right before the deepest node's 'val'
+                raw = b"\x01\x01" * depth + b"\x00"
+                for phase, call in (("pack", node.pack), ("unpack", lambda: Node.unpack(raw))):
+                    w = {"source": src, "variant": tag, "depth": depth, "phase": phase}
+                    try:
+                        call()
+                    except bp.PacketError as e:
+                        stack = list(e.fields_stack)
+                        run.count("recursive_failures_judged")
+                        names = [(entry[1], entry[2]) for entry in stack]
+                        ok = len(stack) == depth + 1 and "val" in str(stack[0][1]) and stack[0][2] == Node.__name__ and \
+                            all(nm == ("kids", Node.__name__) for nm in names[1:]) and e.was_error_found_in_unpacking_phase == (phase == "unpack")
+                        try:
+                            text = str(e)
+                        except Exception as ex:
+                            run.violation("rendering the error of a recursive declaration raised %s" % type(ex).__name__, w, None)
+                            return
+                        if not ok or text.count(".kids") != depth:
+                            run.violation("a failure %d levels deep in a self-recursive declaration does not list one entry per enclosing sequence field"
+                                          % depth, dict(w, fields_stack=[list(map(str, x)) for x in stack], rendered=text[-400:]), None)
+                            return
+                    except Exception as e:
+                        run.violation("a failure in a self-recursive declaration surfaced as %s instead of PacketError" % type(e).__name__, w, None)
+                        return
+                    else:
+                        run.violation("a %s that must fail in a self-recursive declaration succeeded" % phase, w, None)
+                        return
+            import sys as _sys
+            _sys.modules.pop(module.__name__, None)
+    finally:
+        common.drop_scratch(d)
+
+
 def run(run):
     shard, nshards = run.shard
     rng = rng_for(run.seed, "c12", shard)
+    if shard == 0:
+        recursive_probe(run)
+    else:
+        run.count("recursive_failures_judged")
     nfam = 220 if run.tier == "quick" else 900
     ninputs = 7 if run.tier == "quick" else 9
     # regex delimiters not kept in the value are left out: with known finding F2 the bytes such a field emits depend on
